@@ -1,4 +1,5 @@
 import PewProofs.Colocal
+import PewProofs.ColocalNd
 
 /-! # C14 — property theorems (statements only depend on `PewModel.Colocal`, plus `Real.sqrt`
 for the two corollaries about r itself) -/
@@ -163,7 +164,9 @@ theorem manders_range (x y : List Rat) (t : Rat) (hx : ∀ v ∈ x, 0 ≤ v) (hs
 
 example : manders [0, 1, 0, 1] [1, 2, 3, 4] (some 0) (some 0) = (1, 3 / 5) := by decide +kernel
 
-/-! ## block shuffling -/
+/-! ## block shuffling, 2-D (`shuffleBlocks` of `PewModel/Colocal.lean`; the same theorems for arrays of any
+dimension are in the section "block shuffling in any dimension" below, and `nd_coincides_2d` says that this 2-D
+model is the n-D model on shapes `[n0, n1]`) -/
 
 /-- **Block shuffling is a permutation of whole blocks.**  For every `nidx` that is a permutation
 of the selected flat block indices (what `numpy.random.permutation` returns), the result is the
@@ -406,25 +409,75 @@ theorem layout_satisfies_spec (aliases : Bool) (x : Img Rat) (mask : Nat → Nat
     simpa using model_satisfies_spec x mask b0 b1 padMode part (shuffleIdx x mask b0 b1 padMode part) hb0 hb1
       (List.Perm.refl _)
 
-/-- Every image of the shuffle sequence has the shape of `y`, so `shuffledᵢ[mask]` reads exactly
-the coordinates `{q | mask q}` that `y[mask]` (and `x[mask]`) read; and there is one rᵢ per shuffle. -/
-theorem same_pixels (x y : Img Rat) (mask : Nat → Nat → Bool) (b : Nat) (part : Bool)
+/-! ## `shuffle_blocks` as a call: what is left of the arguments -/
+
+/-- **"The mask passed must not be written to"** (the code's own comment), as a frame property of the call model
+`shuffleCall` with the copy statement in place (`copies = true`, the code as it is): in both modes and whatever the
+memory layout, the caller's mask array after the call is the one before; the array handed back is the pure model's
+`shuffleBlocksLayout`; in pad mode the caller's `x` is untouched, in in-place mode the caller's `x` *is* the
+array handed back.  The trim writes exist in the model (`inplaceMask`, `trimCuts`); they go to the copy. -/
+theorem shuffle_call_frame {α : Type} (aliases : Bool) (x : Img α) (mask : Nat → Nat → Bool) (b0 b1 : Nat)
+    (padMode part : Bool) (nidx : List Nat) :
+    (shuffleCall true aliases x mask b0 b1 padMode part nidx).maskAfter = mask ∧
+    (shuffleCall true aliases x mask b0 b1 padMode part nidx).ret
+      = shuffleBlocksLayout aliases x mask b0 b1 padMode part nidx ∧
+    (shuffleCall true aliases x mask b0 b1 padMode part nidx).xAfter
+      = (if padMode then x else (shuffleCall true aliases x mask b0 b1 padMode part nidx).ret) := by
+  refine ⟨shuffleCall_maskAfter_copies _ _ _ _ _ _ _ _, shuffleCall_ret _ _ _ _ _ _ _ _ _, ?_⟩
+  rw [shuffleCall_xAfter, shuffleCall_ret]
+  cases padMode <;> rfl
+
+/-- The same model without the copy statement (`copies = false`: the code before fix fb1e9b9): the array handed back
+is the same, but in in-place mode the caller's mask comes back with everything beyond the last whole block switched
+off. -/
+theorem shuffle_call_without_copy {α : Type} (aliases : Bool) (x : Img α) (mask : Nat → Nat → Bool) (b0 b1 : Nat)
+    (part : Bool) (nidx : List Nat) :
+    (shuffleCall false aliases x mask b0 b1 false part nidx).maskAfter
+      = (fun i j => mask i j && decide (i < x.n0 - x.n0 % b0) && decide (j < x.n1 - x.n1 % b1)) ∧
+    (shuffleCall false aliases x mask b0 b1 false part nidx).ret
+      = shuffleBlocksLayout aliases x mask b0 b1 false part nidx :=
+  ⟨shuffleCall_maskAfter_nocopy _ _ _ _ _ _ _, shuffleCall_ret _ _ _ _ _ _ _ _ _⟩
+
+/-- the defect the copy repairs: a 4×4 mask of ones, block 3 - 9 ones afterwards without the copy, 16 with it -/
+example :
+    ((pixels 4 4).filter (fun q => (shuffleCall false true (⟨4, 4, fun i j => ((i * 4 + j : Nat) : Rat)⟩ : Img Rat)
+        (fun _ _ => true) 3 3 false false [0]).maskAfter q.1 q.2)).length = 9 ∧
+    ((pixels 4 4).filter (fun q => (shuffleCall true true (⟨4, 4, fun i j => ((i * 4 + j : Nat) : Rat)⟩ : Img Rat)
+        (fun _ _ => true) 3 3 false false [0]).maskAfter q.1 q.2)).length = 16 := by decide +kernel
+
+/-! ## the probability loop: every rᵢ is computed over the pixels of r, and nothing of the caller's is written -/
+
+theorem masked_eq_filter_map (a : Img Rat) (mask : Nat → Nat → Bool) :
+    masked a mask = ((pixels a.n0 a.n1).filter (fun q => mask q.1 q.2)).map (fun q => a.get q.1 q.2) := by
+  unfold masked
+  generalize pixels a.n0 a.n1 = l
+  induction l with
+  | nil => rfl
+  | cons q l ih =>
+    by_cases hq : mask q.1 q.2 = true
+    · simp [hq, ih]
+    · simp [hq, ih]
+
+/-- **Same pixels, untouched arguments.**  In the run of `pearsonr_probablity` as the code does it (the mask is a
+loop-carried array handed to every call of `shuffle_blocks`, which copies it before trimming; `shuffled` is
+`y.copy()`), for an image `y` of any memory layout `(yC, yF)`:
+there is one round per shuffle; the mask array that `x[mask]` and `shuffled[mask]` are evaluated with in *every*
+round is the one `r` was computed with - a consequence of the frame property of the call
+(`shuffle_call_frame`), not of how the loop is written: the same statement is false for `copies = false`, see the
+`example` below -; every `shuffledᵢ` has the shape of `y`, so `shuffledᵢ[mask]` reads exactly the coordinates
+`{q | mask q}` that `y[mask]` reads; and after the loop the mask array and the caller's `y` are what they were
+(`x` is never passed to anything that could write it). -/
+theorem same_pixels (yC yF : Bool) (y : Img Rat) (mask : Nat → Nat → Bool) (b : Nat) (part : Bool)
     (sigmas : List (List Nat)) :
-    (probSteps x y mask b part sigmas).length = sigmas.length ∧
-    ∀ yi ∈ shuffleSeq y mask b part sigmas,
-      yi.n0 = y.n0 ∧ yi.n1 = y.n1 ∧
-      masked yi mask = (((pixels y.n0 y.n1).filter (fun q => mask q.1 q.2)).map (fun q => yi.get q.1 q.2)) := by
-  have hm : ∀ a : Img Rat, masked a mask
-      = ((pixels a.n0 a.n1).filter (fun q => mask q.1 q.2)).map (fun q => a.get q.1 q.2) := by
-    intro a
-    unfold masked
-    generalize pixels a.n0 a.n1 = l
-    induction l with
-    | nil => rfl
-    | cons q l ih =>
-      by_cases hq : mask q.1 q.2 = true
-      · simp [hq, ih]
-      · simp [hq, ih]
+    (probRun true true yC yF y mask b part sigmas).rounds.length = sigmas.length ∧
+    (∀ rd ∈ (probRun true true yC yF y mask b part sigmas).rounds,
+      rd.mask = (probRun true true yC yF y mask b part sigmas).maskR ∧
+      rd.shuffled.n0 = y.n0 ∧ rd.shuffled.n1 = y.n1 ∧
+      masked rd.shuffled rd.mask
+        = ((pixels y.n0 y.n1).filter (fun q => mask q.1 q.2)).map (fun q => rd.shuffled.get q.1 q.2)) ∧
+    (probRun true true yC yF y mask b part sigmas).final.mask = mask ∧
+    (probRun true true yC yF y mask b part sigmas).final.yMem.caller = y := by
+  obtain ⟨h1, h2, h3, _⟩ := loopRun_spec b part (loopInit true yC yF y mask) y rfl rfl rfl sigmas
   have hshape : ∀ (sg : List (List Nat)) (y : Img Rat), ∀ yi ∈ shuffleSeq y mask b part sg,
       yi.n0 = y.n0 ∧ yi.n1 = y.n1 := by
     intro sg
@@ -437,51 +490,365 @@ theorem same_pixels (x y : Img Rat) (mask : Nat → Nat → Bool) (b : Nat) (par
       · exact ⟨rfl, rfl⟩
       · have := ih _ yi h
         exact ⟨this.1, this.2⟩
-  have hlen : ∀ (sg : List (List Nat)) (y : Img Rat), (shuffleSeq y mask b part sg).length = sg.length := by
-    intro sg
-    induction sg with
-    | nil => intro y; rfl
-    | cons s ss ih => intro y; simp [shuffleSeq, ih]
-  refine ⟨by simp [probSteps, hlen], ?_⟩
-  intro yi hyi
-  obtain ⟨h0, h1⟩ := hshape sigmas y yi hyi
-  refine ⟨h0, h1, ?_⟩
-  rw [hm yi, h0, h1]
+  refine ⟨?_, ?_, h2, h3⟩
+  · show (loopRun true b part (loopInit true yC yF y mask) sigmas).1.length = _
+    rw [h1, List.length_map, shuffleSeq_length]
+  · intro rd hrd
+    change rd ∈ (loopRun true b part (loopInit true yC yF y mask) sigmas).1 at hrd
+    rw [h1, List.mem_map] at hrd
+    obtain ⟨yi, hyi, rfl⟩ := hrd
+    obtain ⟨s0, s1⟩ := hshape sigmas y yi hyi
+    refine ⟨rfl, s0, s1, ?_⟩
+    rw [masked_eq_filter_map, s0, s1]
+    rfl
+
+/-- in terms of the numbers the routine computes: every rᵢ is a coefficient over as many pixels as r (the masked
+pixel lists `x[mask]` of round i and of r are the same list) -/
+theorem prob_steps_same_pixels (x y : Img Rat) (mask : Nat → Nat → Bool) (b : Nat) (part : Bool)
+    (sigmas : List (List Nat)) :
+    (probSteps x y mask b part sigmas).length = sigmas.length ∧
+    ∀ s ∈ probSteps x y mask b part sigmas, s.n = (masked x mask).length := by
+  obtain ⟨hl, hr, _, _⟩ := same_pixels true true y mask b part sigmas
+  refine ⟨by simp [probSteps, probStepsOf, hl], ?_⟩
+  intro s hs
+  simp only [probSteps, probStepsOf, List.mem_map] at hs
+  obtain ⟨rd, hrd, rfl⟩ := hs
+  rw [(hr rd hrd).1]
+  rfl
+
+/-- the loop without the mask copy (the code before fb1e9b9), 4×4 images, block 3: `r` is computed over 16 pixels,
+`r₁` over 9 - with the copy, over 16 -/
+example :
+    let y : Img Rat := ⟨4, 4, fun i j => ((i * 4 + j : Nat) : Rat)⟩
+    ((probRun false true true false y (fun _ _ => true) 3 false [[0]]).rounds.map
+        (fun rd => (masked y rd.mask).length)) = [9] ∧
+    ((probRun true true true false y (fun _ _ => true) 3 false [[0]]).rounds.map
+        (fun rd => (masked y rd.mask).length)) = [16] ∧
+    (masked y (probRun false true true false y (fun _ _ => true) 3 false [[0]]).maskR).length = 16 := by
+  decide +kernel
+
+/-- and without `y.copy()` (`copyY = false`) the in-place shuffles would land in the caller's `y`: the copy statement
+is what the "images untouched" part of `same_pixels` rests on -/
+example :
+    let y : Img Rat := ⟨2, 4, fun i j => ((i * 4 + j : Nat) : Rat)⟩
+    (pixels 2 4).map (fun q => (probRun true false true false y (fun _ _ => true) 2 false [[1, 0]]).final.yMem.caller.get q.1 q.2)
+      = [2, 3, 0, 1, 6, 7, 4, 5] ∧
+    (pixels 2 4).map (fun q => (probRun true true true false y (fun _ _ => true) 2 false [[1, 0]]).final.yMem.caller.get q.1 q.2)
+      = [0, 1, 2, 3, 4, 5, 6, 7] := by decide +kernel
+
+/-- **No layout flag is needed in the loop** (`x`, `y`, `mask` may be Fortran-ordered or strided views):
+`shuffled = y.copy()` is C-contiguous (`ndarray.copy` has `order='C'`), so `np.ascontiguousarray` inside
+`view_as_blocks` returns the array itself and the block assignment reaches it: whatever the layout `(yC, yF)` of `y`,
+the arrays the rounds read are the iteration of `shuffleBlocksLayout true` (`shuffleSeq`) started from `y`.
+`x[mask]`, `y[mask]`, `shuffled[mask]` are boolean-mask selections, which list the selected pixels in row-major
+index order whatever the memory layout of the three arrays. -/
+theorem loop_layout_free (yC yF : Bool) (y : Img Rat) (mask : Nat → Nat → Bool) (b : Nat) (part : Bool)
+    (sigmas : List (List Nat)) :
+    (probRun true true yC yF y mask b part sigmas).rounds.map (·.shuffled) = shuffleSeq y mask b part sigmas := by
+  obtain ⟨h1, _, _, _⟩ := loopRun_spec b part (loopInit true yC yF y mask) y rfl rfl rfl sigmas
+  show (loopRun true b part (loopInit true yC yF y mask) sigmas).1.map (·.shuffled) = _
+  rw [h1, List.map_map]
+  exact List.map_id _
+
+example : (probRun true true false true (⟨2, 4, fun i j => ((i * 4 + j : Nat) : Rat)⟩ : Img Rat) (fun _ _ => true) 2 false
+      [[1, 0], [1, 0]]).rounds.map (fun rd => (pixels 2 4).map (fun q => rd.shuffled.get q.1 q.2))
+    = [[2, 3, 0, 1, 6, 7, 4, 5], [0, 1, 2, 3, 4, 5, 6, 7]] := by decide +kernel
 
 /-- each in-place shuffle of the loop only rearranges the image: every `shuffledᵢ` has the pixel
-values of `y` (as a multiset), whatever the mask and the block size -/
-theorem loop_conserves (y : Img Rat) (mask : Nat → Nat → Bool) (b : Nat) (part : Bool)
+values of `y` (as a multiset), whatever the mask, the block size and the layout of `y` -/
+theorem loop_conserves (yC yF : Bool) (y : Img Rat) (mask : Nat → Nat → Bool) (b : Nat) (part : Bool)
     (sigmas : List (List Nat)) (hb : 0 < b)
     (hp : ∀ s ∈ sigmas, s.Perm (shuffleIdx y mask b b false part)) :
-    ∀ yi ∈ shuffleSeq y mask b part sigmas,
-      ((pixels y.n0 y.n1).map (fun q => yi.get q.1 q.2)).Perm ((pixels y.n0 y.n1).map (fun q => y.get q.1 q.2)) := by
-  induction sigmas generalizing y with
-  | nil => intro yi h; simp [shuffleSeq] at h
-  | cons s ss ih =>
-    intro yi h
-    simp only [shuffleSeq, List.mem_cons] at h
-    have hs := hp s (by simp)
-    have step := values_conserved y mask b b false part s hb hb hs (by simp [conservedApplies])
-    rcases h with rfl | h
-    · exact step
-    · have hidx : shuffleIdx (shuffleBlocks y mask b b false part s) mask b b false part
-          = shuffleIdx y mask b b false part :=
-        shuffleIdx_shape _ _ mask b b false part rfl rfl
-      have := ih (shuffleBlocks y mask b b false part s)
-        (fun s' hs' => by rw [hidx]; exact hp s' (by simp [hs'])) yi h
-      exact this.trans step
+    ∀ rd ∈ (probRun true true yC yF y mask b part sigmas).rounds,
+      ((pixels y.n0 y.n1).map (fun q => rd.shuffled.get q.1 q.2)).Perm
+        ((pixels y.n0 y.n1).map (fun q => y.get q.1 q.2)) := by
+  have key : ∀ (sigmas : List (List Nat)) (y : Img Rat),
+      (∀ s ∈ sigmas, s.Perm (shuffleIdx y mask b b false part)) →
+      ∀ yi ∈ shuffleSeq y mask b part sigmas,
+        ((pixels y.n0 y.n1).map (fun q => yi.get q.1 q.2)).Perm ((pixels y.n0 y.n1).map (fun q => y.get q.1 q.2)) := by
+    intro sigmas
+    induction sigmas with
+    | nil => intro y _ yi h; simp [shuffleSeq] at h
+    | cons s ss ih =>
+      intro y hp yi h
+      have hl : shuffleBlocksLayout true y mask b b false part s = shuffleBlocks y mask b b false part s := by
+        simp [shuffleBlocksLayout]
+      simp only [shuffleSeq, List.mem_cons, hl] at h
+      have hs := hp s (by simp)
+      have step := values_conserved y mask b b false part s hb hb hs (by simp [conservedApplies])
+      rcases h with rfl | h
+      · exact step
+      · have hidx : shuffleIdx (shuffleBlocks y mask b b false part s) mask b b false part
+            = shuffleIdx y mask b b false part :=
+          shuffleIdx_shape _ _ mask b b false part rfl rfl
+        have := ih (shuffleBlocks y mask b b false part s)
+          (fun s' hs' => by rw [hidx]; exact hp s' (by simp [hs'])) yi h
+        exact this.trans step
+  intro rd hrd
+  have hmem : rd.shuffled ∈ shuffleSeq y mask b part sigmas := by
+    rw [← loop_layout_free yC yF]
+    exact List.mem_map_of_mem hrd
+  exact key sigmas y hp rd.shuffled hmem
 
 /-! ## the shuffle-based probability is a fraction -/
 
-theorem probability_range (gt : List Bool) : 0 ≤ probability gt ∧ probability gt ≤ 1 := by
-  unfold probability
+/-- for `n ≥ 1` comparisons the value is a rational `p` with `0 ≤ p ≤ 1` and `p·n` the natural number of `true`s,
+at most `n` -/
+theorem probability_range (gt : List Bool) (h : gt ≠ []) :
+    ∃ p : Rat, probability gt = some p ∧ 0 ≤ p ∧ p ≤ 1 ∧
+      p * (gt.length : Rat) = (gt.count true : Rat) ∧ gt.count true ≤ gt.length := by
+  have hz : gt.length ≠ 0 := by simpa using h
+  have hpos : (0 : Rat) < (gt.length : Rat) := by exact_mod_cast Nat.pos_of_ne_zero hz
   have h0 : (0 : Rat) ≤ (gt.count true : Rat) := Nat.cast_nonneg _
-  have hl : (0 : Rat) ≤ (gt.length : Rat) := Nat.cast_nonneg _
-  refine ⟨div_nonneg h0 hl, ?_⟩
-  by_cases hz : gt.length = 0
-  · rw [hz]; simp
-  · have hpos : (0 : Rat) < (gt.length : Rat) := by
-      exact_mod_cast Nat.pos_of_ne_zero hz
-    exact (div_le_one hpos).mpr (by exact_mod_cast List.count_le_length)
+  refine ⟨(gt.count true : Rat) / (gt.length : Rat), by simp [probability, hz], div_nonneg h0 hpos.le,
+    (div_le_one hpos).mpr (by exact_mod_cast List.count_le_length), ?_, List.count_le_length⟩
+  field_simp
+
+example : probability [true, false, false] = some (1 / 3) := by decide +kernel
+
+/-- the routine: with `n ≥ 1` shuffles the probability is a fraction `k / n` in `[0, 1]`; with `n = 0` it is NaN
+(`0 / 0` in NumPy), which the property's "fraction in [0, 1]" cannot speak about -/
+theorem pearson_probability_fraction (x y : Img Rat) (mask : Nat → Nat → Bool) (b : Nat) (part : Bool)
+    (sigmas : List (List Nat)) :
+    (sigmas ≠ [] → ∃ (p : Rat) (k : Nat), pearsonProbability x y mask b part sigmas = some p ∧
+      0 ≤ p ∧ p ≤ 1 ∧ p * (sigmas.length : Rat) = (k : Rat) ∧ k ≤ sigmas.length) ∧
+    (sigmas = [] → pearsonProbability x y mask b part sigmas = none) := by
+  have hlen : ((probSteps x y mask b part sigmas).map (·.gt)).length = sigmas.length := by
+    simp [probSteps, probStepsOf, (same_pixels true true y mask b part sigmas).1]
+  constructor
+  · intro hne
+    have hne' : (probSteps x y mask b part sigmas).map (·.gt) ≠ [] := by
+      intro e
+      rw [e] at hlen
+      exact hne (List.length_eq_zero_iff.mp hlen.symm)
+    obtain ⟨p, hp, h0, h1, hk, hle⟩ := probability_range _ hne'
+    rw [hlen] at hk hle
+    exact ⟨p, _, hp, h0, h1, hk, hle⟩
+  · intro he
+    subst he
+    rfl
+
+/-- three shuffles of a 2×4 image in 2×2 blocks (swap, stay, swap): two of the three rᵢ exceed r -/
+example : pearsonProbability (⟨2, 4, fun i j => ((i * 4 + j : Nat) : Rat)⟩ : Img Rat)
+      (⟨2, 4, fun i j => (((i * 4 + j) * (i * 4 + j) % 3 : Nat) : Rat)⟩ : Img Rat) (fun _ _ => true) 2 false
+      [[1, 0], [0, 1], [1, 0]]
+    = some (2 / 3) := by decide +kernel
+
+/-! ## block shuffling in any dimension (`shuffle_blocks` is written for n-D arrays)
+
+The theorems of the 2-D section for `shuffleBlocksNd` (`PewModel/ColocalNd.lean`): shapes, blocks and coordinates
+are lists.  Hypotheses: `block.length = x.shape.length` (the code asserts it) and positive block sizes. -/
+
+/-- **n-D: block shuffling is a permutation of whole blocks** (cf. `shuffle_is_bijection`) -/
+theorem shuffle_is_bijection_nd {α : Type} (x : NdImg α) (mask : List Nat → Bool) (block : List Nat)
+    (padMode part : Bool) (nidx : List Nat) (hlen : block.length = x.shape.length) (hpos : ∀ v ∈ block, 0 < v)
+    (hp : nidx.Perm (shuffleIdxNd x mask block padMode part)) :
+    let p := prepareNd x mask block padMode
+    let nb := nBlocksL p.N block
+    let idx := shuffleIdxNd x mask block padMode part
+    let φ := phiNd block nb idx nidx
+    (∀ c, (shuffleBlocksNd x mask block padMode part nidx).get c = p.X (φ c)) ∧
+    ((coords p.N).map φ).Perm (coords p.N) ∧
+    (∀ c c', c.length = block.length → c'.length = block.length → φ c = φ c' → c = c') ∧
+    (∀ c, c.length = block.length → ltAll (divL c block) nb = true →
+      modL (φ c) block = modL c block ∧
+      divL (φ c) block = unravel nb (src idx nidx (ravel nb (divL c block)))) ∧
+    (∀ c, c.length = block.length → inSelectedNd block nb idx c = false → φ c = c) := by
+  intro p nb idx φ
+  have G := geoNd_of_call x mask block padMode part nidx hlen hpos hp
+  refine ⟨fun c => rfl, ?_, ?_, ?_, ?_⟩
+  · apply map_perm_of_inj _ _ (coords_nodup _)
+    · intro c hc
+      rw [mem_coords] at hc ⊢
+      exact phiNd_in_box G c hc
+    · intro c hc c' hc' h
+      rw [mem_coords] at hc hc'
+      exact phiNd_inj G c c' ((ltAll_length hc).trans G.hlenN) ((ltAll_length hc').trans G.hlenN) h
+  · intro c c' hc hc' h
+    exact phiNd_inj G c c' hc hc' h
+  · intro c hc hv
+    exact ⟨phiNd_mod G c hc hv, phiNd_div G c hc hv⟩
+  · intro c hc h
+    exact phiNd_fix c hc ((inSelectedNd_false_iff _ _ _ _).mp h)
+
+/-- a 2×2×4 array, blocks 1×2×2, full mask: four blocks, reversed -/
+example : ([3, 2, 1, 0] : List Nat).Perm
+    (shuffleIdxNd (⟨[2, 2, 4], fun c => (ravel [2, 2, 4] c : Rat)⟩ : NdImg Rat) (fun _ => true) [1, 2, 2] false false) := by
+  decide
+
+example : (coords [2, 2, 4]).map (shuffleBlocksNd (⟨[2, 2, 4], fun c => (ravel [2, 2, 4] c : Rat)⟩ : NdImg Rat)
+      (fun _ => true) [1, 2, 2] false false [3, 2, 1, 0]).get
+    = [10, 11, 8, 9, 14, 15, 12, 13, 2, 3, 0, 1, 6, 7, 4, 5] := by decide +kernel
+
+/-- a 1-D array is the shape `[n]` (no embedding into 2-D): pad mode, 5 elements, block 2 - three blocks, the last
+one partly padding -/
+example : shuffleIdxNd (⟨[5], fun c => (c.getD 0 0 : Rat)⟩ : NdImg Rat) (fun _ => true) [2] true false = [0, 1, 2] ∧
+    (coords [5]).map (shuffleBlocksNd (⟨[5], fun c => (c.getD 0 0 : Rat)⟩ : NdImg Rat) (fun _ => true) [2] true false
+      [2, 1, 0]).get = [4, 4, 2, 3, 0] := by decide +kernel
+
+/-- n-D: pixels outside the shuffled blocks never move (any `nidx`, both modes) -/
+theorem outside_never_move_nd {α : Type} (x : NdImg α) (mask : List Nat → Bool) (block : List Nat)
+    (padMode part : Bool) (nidx : List Nat) (c : List Nat) (hlen : block.length = x.shape.length)
+    (hc : ltAll c x.shape = true)
+    (hout : inSelectedNd block (nBlocksL (prepareNd x mask block padMode).N block)
+      (shuffleIdxNd x mask block padMode part) c = false) :
+    (shuffleBlocksNd x mask block padMode part nidx).get c = x.get c := by
+  have hcl : c.length = block.length := (ltAll_length hc).trans hlen.symm
+  have hfix := phiNd_fix (nidx := nidx) c hcl ((inSelectedNd_false_iff _ _ _ _).mp hout)
+  show (prepareNd x mask block padMode).X (phiNd block _ (shuffleIdxNd x mask block padMode part) nidx c) = _
+  rw [hfix]
+  exact prepareNd_X x mask block padMode c hc
+
+/-- n-D: every output block is one of the selected input blocks: block `f` of the result is block `src f` of the
+working array, pixel for pixel (offsets `o` in the box `block`), and `src f` is again a selected block -/
+theorem blocks_from_input_nd {α : Type} (x : NdImg α) (mask : List Nat → Bool) (block : List Nat)
+    (padMode part : Bool) (nidx : List Nat) (hlen : block.length = x.shape.length)
+    (hp : nidx.Perm (shuffleIdxNd x mask block padMode part))
+    (f : Nat) (hf : f ∈ shuffleIdxNd x mask block padMode part) :
+    let p := prepareNd x mask block padMode
+    let nb := nBlocksL p.N block
+    let g := src (shuffleIdxNd x mask block padMode part) nidx f
+    g ∈ shuffleIdxNd x mask block padMode part ∧
+    ∀ o, ltAll o block = true →
+      (shuffleBlocksNd x mask block padMode part nidx).get (recomb (unravel nb f) block o)
+        = p.X (recomb (unravel nb g) block o) := by
+  intro p nb g
+  refine ⟨src_mem _ _ hp f hf, ?_⟩
+  intro o ho
+  have hflt : f < prodL nb := selectedNd_lt _ _ _ _ f hf
+  have hnbl : nb.length = block.length := by
+    show (divL (prepareNd x mask block padMode).N block).length = _
+    rw [length_divL, prepareNd_N_length x mask block padMode hlen]
+    simp
+  have hul : (unravel nb f).length = block.length := by rw [unravel_length, hnbl]
+  have hd : divL (recomb (unravel nb f) block o) block = unravel nb f := divL_recomb _ _ _ hul ho
+  have hm : modL (recomb (unravel nb f) block o) block = o := modL_recomb _ _ _ hul ho
+  have hv : ltAll (divL (recomb (unravel nb f) block o) block) nb = true := by
+    rw [hd]; exact unravel_lt _ _ hflt
+  show p.X (phiNd block nb (shuffleIdxNd x mask block padMode part) nidx (recomb (unravel nb f) block o)) = _
+  rw [phiNd_valid _ hv, hd, hm, ravel_unravel _ _ hflt]
+
+/-- n-D: pixel values are conserved (as a multiset over the whole array) whenever the shape is a multiple of the
+block on every axis, and always in in-place mode -/
+theorem values_conserved_nd {α : Type} (x : NdImg α) (mask : List Nat → Bool) (block : List Nat)
+    (padMode part : Bool) (nidx : List Nat) (hlen : block.length = x.shape.length) (hpos : ∀ v ∈ block, 0 < v)
+    (hp : nidx.Perm (shuffleIdxNd x mask block padMode part))
+    (happ : conservedAppliesNd x block padMode = true) :
+    ((coords x.shape).map (shuffleBlocksNd x mask block padMode part nidx).get).Perm
+      ((coords x.shape).map x.get) := by
+  have G := geoNd_of_call x mask block padMode part nidx hlen hpos hp
+  have hN : (prepareNd x mask block padMode).N = x.shape := by
+    cases padMode with
+    | false => rfl
+    | true =>
+      simp only [conservedAppliesNd, Bool.not_true, Bool.false_or] at happ
+      exact padExt_list_of_multiple _ _ hlen happ
+  have hw := conserved_working_nd (prepareNd x mask block padMode).X G
+  have hco : coords (prepareNd x mask block padMode).N = coords x.shape := by rw [hN]
+  rw [hco] at hw
+  have e2 : (coords x.shape).map (prepareNd x mask block padMode).X = (coords x.shape).map x.get := by
+    apply List.map_congr_left
+    intro c hc
+    rw [mem_coords] at hc
+    exact prepareNd_X x mask block padMode c hc
+  rw [← e2]
+  exact hw
+
+example : conservedAppliesNd (⟨[4, 6, 2], fun _ => (0 : Rat)⟩ : NdImg Rat) [2, 3, 1] true = true ∧
+    conservedAppliesNd (⟨[5, 7, 3], fun _ => (0 : Rat)⟩ : NdImg Rat) [2, 3, 2] false = true ∧
+    conservedAppliesNd (⟨[5, 6, 2], fun _ => (0 : Rat)⟩ : NdImg Rat) [2, 3, 1] true = false := by decide
+
+/-- **n-D: the model's result satisfies the relation the check evaluates on the implementation's result**
+(`specOutsideNd`, `specBlocksNd`, `specConservedNd`), for every permutation `nidx`, arrays of any dimension. -/
+theorem model_satisfies_spec_nd (x : NdImg Rat) (mask : List Nat → Bool) (block : List Nat)
+    (padMode part : Bool) (nidx : List Nat) (hlen : block.length = x.shape.length) (hpos : ∀ v ∈ block, 0 < v)
+    (hp : nidx.Perm (shuffleIdxNd x mask block padMode part)) :
+    specOutsideNd x (shuffleBlocksNd x mask block padMode part nidx) mask block padMode part = true ∧
+    specBlocksNd x (shuffleBlocksNd x mask block padMode part nidx) mask block padMode part = true ∧
+    (conservedAppliesNd x block padMode = true →
+      specConservedNd x (shuffleBlocksNd x mask block padMode part nidx) = true) := by
+  refine ⟨?_, ?_, ?_⟩
+  · unfold specOutsideNd
+    simp only [List.all_eq_true, Bool.or_eq_true, decide_eq_true_eq]
+    intro c hc
+    rw [mem_coords] at hc
+    by_cases hs : inSelectedNd block (nBlocksL (prepareNd x mask block padMode).N block)
+        (selectedNd (prepareNd x mask block padMode).M block (nBlocksL (prepareNd x mask block padMode).N block) part)
+        c = true
+    · exact Or.inl hs
+    · right
+      exact outside_never_move_nd x mask block padMode part nidx c hlen hc (by simpa [shuffleIdxNd] using hs)
+  · unfold specBlocksNd
+    simp only [List.all_eq_true, List.any_eq_true, Bool.or_eq_true, decide_eq_true_eq]
+    intro f hf
+    obtain ⟨hg, hblk⟩ := blocks_from_input_nd x mask block padMode part nidx hlen hp f hf
+    refine ⟨_, hg, ?_⟩
+    intro o ho
+    rw [mem_coords] at ho
+    right
+    exact hblk o ho
+  · intro happ
+    unfold specConservedNd
+    rw [beq_iff_eq]
+    exact sortR_eq_of_perm _ _ (values_conserved_nd x mask block padMode part nidx hlen hpos hp happ)
+
+/-- n-D, memory layout (copy case): when the block view does not alias the returned array the call returns the
+input pixel for pixel -/
+theorem layout_copy_returns_input_nd {α : Type} (x : NdImg α) (mask : List Nat → Bool) (block : List Nat)
+    (padMode part : Bool) (nidx : List Nat) (c : List Nat) (hlen : block.length = x.shape.length)
+    (hc : ltAll c x.shape = true) :
+    (shuffleBlocksLayoutNd false x mask block padMode part nidx).get c = x.get c := by
+  have hcl : c.length = block.length := (ltAll_length hc).trans hlen.symm
+  show (prepareNd x mask block padMode).X (phiNd block _ _ _ c) = _
+  simp only [Bool.false_eq_true, if_false]
+  rw [phiNd_self _ _ _ _ hcl]
+  exact prepareNd_X x mask block padMode c hc
+
+/-- n-D: whichever the layout, the result satisfies the relation the check evaluates -/
+theorem layout_satisfies_spec_nd (aliases : Bool) (x : NdImg Rat) (mask : List Nat → Bool) (block : List Nat)
+    (padMode part : Bool) (nidx : List Nat) (hlen : block.length = x.shape.length) (hpos : ∀ v ∈ block, 0 < v)
+    (hp : nidx.Perm (shuffleIdxNd x mask block padMode part)) :
+    specOutsideNd x (shuffleBlocksLayoutNd aliases x mask block padMode part nidx) mask block padMode part = true ∧
+    specBlocksNd x (shuffleBlocksLayoutNd aliases x mask block padMode part nidx) mask block padMode part = true ∧
+    (conservedAppliesNd x block padMode = true →
+      specConservedNd x (shuffleBlocksLayoutNd aliases x mask block padMode part nidx) = true) := by
+  cases aliases with
+  | true => exact model_satisfies_spec_nd x mask block padMode part nidx hlen hpos hp
+  | false =>
+    exact model_satisfies_spec_nd x mask block padMode part (shuffleIdxNd x mask block padMode part) hlen hpos
+      (List.Perm.refl _)
+
+/-- **n-D: "the mask passed must not be written to"** - `shuffle_call_frame` for arrays of any dimension: the
+per-axis trim writes `np.swapaxes(mask, 0, axis)[slice(t, None)] = False` go to the copy -/
+theorem shuffle_call_frame_nd {α : Type} (aliases : Bool) (x : NdImg α) (mask : List Nat → Bool) (block : List Nat)
+    (padMode part : Bool) (nidx : List Nat) :
+    (shuffleCallNd true aliases x mask block padMode part nidx).maskAfter = mask ∧
+    (shuffleCallNd true aliases x mask block padMode part nidx).ret
+      = shuffleBlocksLayoutNd aliases x mask block padMode part nidx ∧
+    (shuffleCallNd true aliases x mask block padMode part nidx).xAfter
+      = (if padMode then x else (shuffleCallNd true aliases x mask block padMode part nidx).ret) ∧
+    (shuffleCallNd false aliases x mask block false part nidx).maskAfter
+      = (fun c => mask c && inTrim x.shape block c) := by
+  refine ⟨shuffleCallNd_maskAfter_copies _ _ _ _ _ _ _, shuffleCallNd_ret _ _ _ _ _ _ _ _, ?_,
+    shuffleCallNd_maskAfter_nocopy _ _ _ _ _ _⟩
+  rw [shuffleCallNd_xAfter, shuffleCallNd_ret]
+  cases padMode <;> rfl
+
+/-- a 3×3×3 mask of ones, blocks 2×2×2: 8 ones are left without the copy, 27 with it -/
+example :
+    ((coords [3, 3, 3]).filter (shuffleCallNd false true (⟨[3, 3, 3], fun c => (ravel [3, 3, 3] c : Rat)⟩ : NdImg Rat)
+        (fun _ => true) [2, 2, 2] false false [0]).maskAfter).length = 8 ∧
+    ((coords [3, 3, 3]).filter (shuffleCallNd true true (⟨[3, 3, 3], fun c => (ravel [3, 3, 3] c : Rat)⟩ : NdImg Rat)
+        (fun _ => true) [2, 2, 2] false false [0]).maskAfter).length = 27 := by decide +kernel
+
+/-- **The 2-D model is the n-D model on shapes `[n0, n1]`**: the list handed to the permutation and every pixel of
+the result coincide (so the 2-D theorems above and the n-D theorems speak about the same function, and the check
+runs both on every 1-D/2-D case). -/
+theorem nd_coincides_2d {α : Type} (aliases : Bool) (x : Img α) (mask : Nat → Nat → Bool) (b0 b1 : Nat)
+    (padMode part : Bool) (nidx : List Nat) :
+    shuffleIdxNd x.toNd (maskToNd mask) [b0, b1] padMode part = shuffleIdx x mask b0 b1 padMode part ∧
+    ∀ i j, (shuffleBlocksLayoutNd aliases x.toNd (maskToNd mask) [b0, b1] padMode part nidx).get [i, j]
+      = (shuffleBlocksLayout aliases x mask b0 b1 padMode part nidx).get i j :=
+  ⟨shuffleIdxNd_two x mask b0 b1 padMode part, shuffleBlocksLayoutNd_two aliases x mask b0 b1 padMode part nidx⟩
 
 end Pew.Colocal
